@@ -107,7 +107,7 @@ static RunOut run_script(const std::string& text, long budget = 200000) {
 
 struct C18 : Profile {
   const char* id() const override { return "C18"; }
-  long budget(const std::string& tier) const override { return tier == "thorough" ? 200000 : 5000; }
+  long budget(const std::string& tier) const override { return tier == "thorough" ? 200000 : 12000; }
   bool fork_per_run() const override { return false; }
   std::string rule() const override {
     return "plan = one module workload. file: history of up to 25 operations (open in r/w/r+/w+/a, write string/bytes, seekset/cur/end with lattice offsets, read / readln with sizes "
